@@ -50,6 +50,7 @@ type Engine struct {
 	roGlobals  map[string]bool
 	Variants   []*BoundContract
 	ghostNames map[string]int
+	parenMarks map[token.Pos]string
 	Errors     []string
 }
 
@@ -63,7 +64,7 @@ func NewEngine(repo, mirror string) *Engine {
 		funcIDs: map[*ssa.Function]int{}, strLits: map[string]int{}, globals: map[*ssa.Global]int{},
 		loopInfos: map[*ssa.Function]*loopInfo{}, regAllocs: map[*ssa.Function]map[*ssa.Alloc]bool{},
 		fileByName: map[string]*ast.File{}, intrinsics: map[string]intrinsicFn{}, roGlobals: map[string]bool{},
-		AllPkgs: map[string]*packages.Package{}, ghostNames: map[string]int{}}
+		AllPkgs: map[string]*packages.Package{}, ghostNames: map[string]int{}, parenMarks: map[token.Pos]string{}}
 	e.registerIntrinsics()
 	return e
 }
@@ -190,6 +191,16 @@ func (e *Engine) bind() error {
 		}
 		if gen == nil {
 			return fmt.Errorf("generated contract file not part of package %s", pkg.PkgPath)
+		}
+		for _, cg := range gen.Comments {
+			for _, cm := range cg.List {
+				switch cm.Text {
+				case "/*@old*/":
+					e.parenMarks[cm.End()] = "old"
+				case "/*@head*/":
+					e.parenMarks[cm.End()] = "head"
+				}
+			}
 		}
 		decls := map[string]*ast.FuncDecl{}
 		for _, d := range gen.Decls {
